@@ -37,12 +37,13 @@ MIDDLE_CLAUSES = """
             // i.e. for a sorted slice these are exactly the median element(s)
             r@.len() == (if slice@.len() == 0 { 0int } else if slice@.len() % 2 == 0 { 2int } else { 1int }),
 """
-ITER_HINT = (r"self \. sample_size as u64 \* self \. time_samples \. len \( \) as u64", "before", """
+# (placed at the start of the body, so that it does not depend on the shape of the expression it helps with)
+ITER_HINT = (r"^\s*\{", """{
                 proof {
                     assert(self.sample_size as int * self.time_samples@.len() as int <= 0xffff_ffff * 0xffff_ffff) by (nonlinear_arith)
                         requires 0 <= self.sample_size as int <= 0xffff_ffff, 0 <= self.time_samples@.len() as int <= 0xffff_ffff;
                 }
-            """, 1, "hint")
+            """, 1)
 ITER_CLAUSES = """
             requires self.time_samples@.len() <= u32::MAX,
             ensures r == self.sample_size as int * self.time_samples@.len(),
@@ -89,7 +90,7 @@ def verus_files(S: Sources):
                 final(self).alloc_info_by_sample@ == Map::<u32, ThreadAllocInfo>::empty(),
                 final(self).sample_size == old(self).sample_size,
         """),
-        code_fn(sm, f_iter, "SampleCollection::iter_count", ret="r", inserts=[ITER_HINT], clauses=ITER_CLAUSES),
+        code_fn(sm, f_iter, "SampleCollection::iter_count", ret="r", subst=[ITER_HINT], clauses=ITER_CLAUSES),
     ])
     # AllocOpMap<ThreadAllocTally>::add_to_total (the means of the allocation columns are taken over these totals)
     a = S(ALLOC)
@@ -413,7 +414,7 @@ def time_core_files(S: Sources):
     f_sorted = sm.find_fn("sorted_samples", impl=r"impl SampleCollection\b")
     SUM_RE = r"(&?\s*[\w.]+?)\s*\.\s*iter\s*\(\s*\)\s*\.\s*map\s*\(\s*\|\s*s\s*\|\s*s\s*\.\s*duration\s*\.\s*picos\s*\)\s*\.\s*sum\s*\(\s*\)"
     secs += wrap_impl("impl SampleCollection", [
-        code_fn(sm, f_iter, "SampleCollection::iter_count", ret="r", inserts=[ITER_HINT], clauses=ITER_CLAUSES),
+        code_fn(sm, f_iter, "SampleCollection::iter_count", ret="r", subst=[ITER_HINT], clauses=ITER_CLAUSES),
         code_fn(sm, f_total, "SampleCollection::total_duration", ret="r", subst=[(SUM_RE, r"sum_picos(&\1)", 1)], clauses="""
             requires sum_seq(durs(self.time_samples@)) <= u128::MAX,
             ensures r.picos == sum_seq(durs(self.time_samples@)),
